@@ -196,7 +196,8 @@ pub struct HistStats {
 }
 
 pub struct AcctWorld {
-    pub temp: tempfile::TempDir,
+    /// data dir (shared when several accounts live in one dir, see `new_in`)
+    pub temp: std::sync::Arc<tempfile::TempDir>,
     pub cfg: AcctCfg,
     pub account: LocalAccount,
     pub account_id: AccountId,
@@ -248,10 +249,15 @@ impl AcctWorld {
             .prefix("sv-acct-")
             .tempdir()
             .map_err(hf("harness/tempdir", "tempdir"))?;
+        Self::new_in(std::sync::Arc::new(temp), cfg, "verif-account").await
+    }
+
+    /// A new account inside an existing data dir (several accounts may share one dir).
+    pub async fn new_in(temp: std::sync::Arc<tempfile::TempDir>, cfg: &AcctCfg, name: &str) -> Result<Self, Failure> {
         let target = make_target(temp.path(), cfg.db).await?;
         let password: SecretString = "correct horse battery staple verif".to_string().into();
         let account = LocalAccount::new_account_with_builder(
-            "verif-account".to_string(),
+            name.to_string(),
             password.clone(),
             target,
             |b| b.create_file_password(true).create_archive(true),
@@ -294,6 +300,24 @@ impl AcctWorld {
             });
         }
         Ok(w)
+    }
+
+    /// Wrap an account that is already signed in on existing storage (e.g. after an
+    /// upgrade) together with the model it is expected to serve.
+    pub fn from_existing(temp: std::sync::Arc<tempfile::TempDir>, cfg: &AcctCfg, account: LocalAccount, password: SecretString, model: Model) -> Self {
+        let account_id = *account.account_id();
+        AcctWorld {
+            temp,
+            cfg: cfg.clone(),
+            account,
+            account_id,
+            password,
+            model,
+            stats: HistStats::default(),
+            avoid: BTreeSet::new(),
+            old_keys: vec![],
+            search: false,
+        }
     }
 
     pub async fn target(&self) -> BackendTarget {
@@ -736,7 +760,8 @@ impl AcctWorld {
                     .filter(|(i, f)| *i != fi && f.secrets.iter().any(|s| s.id == sid))
                     .map(|(i, _)| i)
                     .collect();
-                if !live_elsewhere.is_empty() && self.cfg.db && self.avoid.contains("sqlite-id-live-in-two-folders") {
+                // "id-live-in-two-folders" skips the shape on either backend (differential runs)
+                if !live_elsewhere.is_empty() && ((self.cfg.db && self.avoid.contains("sqlite-id-live-in-two-folders")) || self.avoid.contains("id-live-in-two-folders")) {
                     self.stats.skipped += 1;
                     self.stats.classes.insert("excluded:sqlite-id-live-in-two-folders".into());
                     return Ok(());
